@@ -241,6 +241,17 @@ func main() {
 			checkRes(k, "Merge(a,Merge(b,c))", rr, w3)
 			// equality and map identity
 			if !hasNaNSlice(modelSlice(want)) {
+				// the operands themselves (nil included) have the identity of any resource holding the same attributes
+				for oi, op := range []*resource.Resource{a, b} {
+					om := []modelRes{ma, mb}[oi]
+					if hasNaNSlice(modelSlice(om.m)) {
+						continue
+					}
+					reb := resource.NewSchemaless(modelSlice(om.m)...)
+					if !op.Equal(reb) || op.Equivalent() != reb.Equivalent() || (len(om.m) == 0 && op.Equivalent() != resource.Empty().Equivalent()) {
+						k.Violate("equal-resources-differ", map[bool]string{true: "nil operand", false: "operand"}[op == nil], vf.CanonKVs(op.Attributes()), nil)
+					}
+				}
 				ab2, _ := resource.Merge(a, b)
 				if !ab.Equal(ab2) || ab.Equivalent() != ab2.Equivalent() {
 					k.Violate("equal-resources-differ", "", vf.CanonKVs(ab.Attributes()), nil)
@@ -455,8 +466,10 @@ func main() {
 				}
 			}
 			var shape []string
+			var parts []vf.AttrModel // what each detector contributes, in order
 			for i := 0; i < n; i++ {
 				res, mr := genRes(r)
+				parts = append(parts, nil)
 				switch r.Intn(8) {
 				case 0:
 					ds = append(ds, nil)
@@ -470,24 +483,50 @@ func main() {
 					e := fmt.Errorf("d%d: %w", i, resource.ErrPartialResource)
 					ds = append(ds, scripted{res, e, "partial"})
 					wantErrs = append(wantErrs, e)
-					want = union(want, mr.m)
+					parts[i] = mr.m
 					if mr.schema != "" {
 						urlsSeen[mr.schema] = true
 					}
 					shape = append(shape, "partial")
 				default:
 					ds = append(ds, scripted{res, nil, "ok"})
-					want = union(want, mr.m)
+					parts[i] = mr.m
 					if mr.schema != "" {
 						urlsSeen[mr.schema] = true
 					}
 					shape = append(shape, "ok")
 				}
 			}
+			// with New the list is sometimes given as two options that are sub-slices of the caller's one list, with
+			// an attribute option in between: precedence follows option order and the caller's list is left alone
+			split := -1
+			var extra attribute.KeyValue
+			if useNew && r.Bool() {
+				split = r.Intn(n + 1)
+				extra = attribute.String("split.extra", "from-option")
+				for _, p := range parts {
+					if len(p) > 0 && r.Chance(1, 3) {
+						extra = attribute.String(p.Keys()[r.Intn(len(p))], "from-option")
+					}
+				}
+			}
+			for i, p := range parts {
+				if i == split {
+					want = union(want, vf.AttrModel{string(extra.Key): extra.Value})
+				}
+				want = union(want, p)
+			}
+			if split == n {
+				want = union(want, vf.AttrModel{string(extra.Key): extra.Value})
+			}
+			before := append([]resource.Detector(nil), ds...)
 			var got *resource.Resource
 			var err error
 			ok := k.Guard("panic-detect", strings.Join(shape, ","), func() {
-				if useNew {
+				if split >= 0 {
+					got, err = resource.New(ctx, resource.WithDetectors(ds[:split]...), resource.WithAttributes(extra), resource.WithDetectors(ds[split:]...), resource.WithSchemaURL(cfgURL))
+					k.C.Count("detector_lists_split_over_options", 1)
+				} else if useNew {
 					got, err = resource.New(ctx, resource.WithDetectors(ds...), resource.WithSchemaURL(cfgURL))
 				} else {
 					got, err = resource.Detect(ctx, ds...)
@@ -499,6 +538,12 @@ func main() {
 			if got == nil {
 				k.Violate("detect-returned-nil", "", "", nil)
 				return
+			}
+			for i := range before {
+				if ds[i] != before[i] {
+					k.Violate("callers-detector-list-changed", "", fmt.Sprintf("element %d of the list passed to WithDetectors is now %T", i, ds[i]), nil)
+					break
+				}
 			}
 			checkRes(k, "detectors "+strings.Join(shape, ","), got, want)
 			for _, e := range wantErrs {
